@@ -364,3 +364,50 @@ func ColdCreateStorm(tmp string, disk bool, goroutines, rounds int, r *rng.R) (o
 	}
 	return
 }
+
+// MemoryURLWithPath: an on-disk bucket lives in a directory; an in-memory bucket (another name) is opened with a URL
+// that carries the same path plus "?mode=memory" and is then deleted. Deleting the in-memory bucket must leave the
+// on-disk bucket's files alone: after everything is closed it reopens with its data.
+func MemoryURLWithPath(tmp string, memFirst bool) (problems []string) {
+	ctx := context.Background()
+	name := fmt.Sprintf("mp%d_%d", os.Getpid(), stormSerial.Add(1))
+	dir := filepath.Join(tmp, name)
+	diskURL := "rosmar://" + dir
+	memURL := diskURL + "?mode=memory"
+	defer os.RemoveAll(dir)
+	openDisk := func(mode rosmar.OpenMode) (*rosmar.Bucket, error) { return rosmar.OpenBucket(diskURL, name, mode) }
+	var mem *rosmar.Bucket
+	var err error
+	if memFirst {
+		if mem, err = rosmar.OpenBucket(memURL, name+"_mem", rosmar.CreateNew); err != nil {
+			return nil // this spelling of an in-memory URL is not accepted: nothing to judge
+		}
+	}
+	d, err := openDisk(rosmar.CreateNew)
+	if err != nil {
+		if mem != nil {
+			_ = mem.CloseAndDelete(ctx)
+		}
+		return []string{"setup|" + err.Error()}
+	}
+	if err := safeSet(dsOf(d), "kept", "on disk"); err != nil {
+		return []string{"setup|" + err.Error()}
+	}
+	d.Close(ctx)
+	if mem == nil {
+		if mem, err = rosmar.OpenBucket(memURL, name+"_mem", rosmar.CreateNew); err != nil {
+			return nil
+		}
+	}
+	_ = safeSet(dsOf(mem), "volatile", "in memory")
+	func() { defer func() { _ = recover() }(); _ = mem.CloseAndDelete(ctx) }()
+	back, err := openDisk(rosmar.ReOpenExisting)
+	if err != nil {
+		return []string{fmt.Sprintf("memory-url|an in-memory bucket opened at %q (the directory of an on-disk bucket plus ?mode=memory) was deleted; afterwards the on-disk bucket cannot be reopened: %v", "rosmar://<dir>?mode=memory", err)}
+	}
+	defer func() { func() { defer func() { _ = recover() }(); _ = back.CloseAndDelete(ctx) }() }()
+	if v, err := safeGet(dsOf(back), "kept"); err != nil || v != "on disk" {
+		return []string{fmt.Sprintf("memory-url|after an in-memory bucket with the same path in its URL was deleted, the on-disk bucket's data is gone: %q %v", v, err)}
+	}
+	return nil
+}
